@@ -1,10 +1,9 @@
 // unit ratio_to_fbig: rational/src/third_party/dashu_float.rs `Repr::to_float` (C06/C10: the rational rounded ONCE to a
 // float of `precision` digits in base B by mode R, truthful Exact/Inexact flag, Exact iff representable), together with
 // the real callees float/src/convert.rs `Context::convert_int`, float/src/shift.rs `Shr<isize> for FBig` (hoisted),
-// float/src/repr.rs `Context::repr_round` (re-verified here against its float_repr_round contract PLUS "a rounded result
-// is normalized"), `Context::{new, is_limited}`, `Repr::{digits, is_infinite, is_zero}`, `FBig::new`,
-// `Approximation::map`, `assert_finite`.  `FBig::with_precision` and `Round::round_fract` are seen through the contracts
-// they are verified against in units float_conv / float_round.
+// `Context::new`, `Repr::{is_infinite, is_zero}`, `FBig::new`, `Approximation::{map, and_then}`, `assert_finite`.
+// `Context::repr_round`, `FBig::with_precision` and `Round::round_ratio` are seen through the contracts they are verified
+// against in units float_repr_round / float_conv / float_round (SIG = generated from the same annotated copies).
 #![allow(unused_imports, unused_variables, dead_code, non_snake_case, unused_mut, unused_parens, unused_braces)]
 use vstd::prelude::*;
 verus! {
@@ -14,7 +13,6 @@ verus! {
 pub trait Round: Copy {
     /// ghost: which of the six mode definitions the implementing type stands for
     spec fn md() -> Mode;
-//@@ SIG float/round/round_fract.rs
 //@@ SIG float/round/round_ratio.rs
 }
 //@@ INCLUDE lib/round_float_repr.rs
@@ -27,18 +25,17 @@ use core::marker::PhantomData;
 global size_of usize == 8;   // DESIGN.md section 6: usize is 64-bit in all proofs
 impl<T, E> Approximation<T, E> {
 //@@ FN base/approx/map.rs
+//@@ FN base/approx/and_then.rs
 }
 //@@ SIG float/error/panic_operate_with_inf.rs
 //@@ FN float/error/assert_finite.rs
 impl<const B: Word> Repr<B> {
 //@@ FN float/repr/is_infinite.rs
-//@@ FN float/repr/digits.rs
 //@@ FN float/ebounds/repr_is_zero.rs
 }
 impl<R: Round> Context<R> {
 //@@ FN float/convert/context_new.rs
-//@@ FN float/repr/is_limited.rs
-//@@ FN rational/to_float/repr_round_norm.rs
+//@@ SIG float/repr/repr_round.rs
 //@@ FN rational/to_float/convert_int.rs
 }
 impl<R: Round, const B: Word> FBig<R, B> {
